@@ -5,13 +5,20 @@ Per run:  (1) translator obligations: the five closed formulas of Numerics.py, r
               source, are proved equal to the model's Lagrange form for all inputs (field);
           (2) dispatch table extracted from make_extrap_func == {2:linear,...,6:quintic};
           (3) correspondence: make_extrap_func / make_extrap_log_func on generated models vs the Coq model over Q;
-          (4) the property predicate itself on the implementation (result == value at spacing 0).
+          (4) the property predicate itself on the implementation (result == value at spacing 0);
+          (5) ONE wrap, SEVERAL calls: every case wraps its model once and calls the wrapped function positionally, by keyword,
+              positionally again, with the grid list in another order, with another pts list of the same length and once more,
+              with extrap_x_l given as list / tuple / numpy array / one list shared between two wrapped functions; every call is
+              compared with the (pure) Coq model, identical calls must agree bit for bit, every object handed over must be
+              bit-identical afterwards, results must not share memory with the model's arrays (C07_calls_are_independent);
+          (6) the frame condition of extrap_func read off the source (harness/props/c07_frame.py).
 """
 import ast, itertools, json, math, os
 from fractions import Fraction
 from harness import lib
 from harness.lib import q, ql, b
 from harness.translate import pyexpr
+from harness.props import c07_frame
 
 NUMERICS = os.path.join(lib.REPO, 'dadi', 'Numerics.py')
 FUNCS = {2: 'linear_extrap', 3: 'quadratic_extrap', 4: 'cubic_extrap', 5: 'quartic_extrap', 6: 'quintic_extrap'}
@@ -180,16 +187,146 @@ def gen_cases(ctx):
                           'fail_mag': 5, 'mode': 'array', 'x_from': 'explicit', 'pts_passing': 'pos', 'via_log_func': False,
                           'perm': list(range(k)), 'special': kind})
             cid += 1
+    # one wrap, several calls: systematic, every case (argument kinds cycle over the cases that pass an explicit list)
+    nexp = 0
+    for n, c in enumerate(cases):
+        attach_calls(rng, c, n, nexp)
+        if c['x_from'] == 'explicit':
+            nexp += 1
     return cases
+
+
+XL_KINDS = ['list', 'tuple', 'ndarray', 'shared']      # 'shared': ONE list object given to two wrapped functions
+PTS_KINDS = ['list', 'tuple', 'ndarray']
+ARGS = [[1.5, 2.5], [0.5, 2.5], [3.5, 2.5], [6.5, 2.5], [1.5, 0.5]]   # the model scales its value by (a+b)/4: 1, 3/4, 3/2, 9/4, 1/2
+
+def lag_weights(xs):
+    fx = [Fraction(x) for x in xs]
+    ws = []
+    for i in range(len(fx)):
+        w = Fraction(1)
+        for j in range(len(fx)):
+            if j != i:
+                w *= fx[j] / (fx[j] - fx[i])
+        ws.append(w)
+    return ws
+
+def other_order(rng, c):
+    """a non-identity ordering of the grid list.  With an explicit x list the permuted results are paired with the x values by
+    position, which is not polynomial data any more: in log mode keep the extrapolated logarithm moderate (exp on both sides)."""
+    k = c['k']
+    if k < 2:
+        return None
+    ident = list(range(k))
+    cands = []
+    for _ in range(12):
+        p = ident[:]; rng.shuffle(p)
+        if p != ident:
+            cands.append(p)
+    cands += [ident[:i] + [ident[j]] + ident[i + 1:j] + [ident[i]] + ident[j + 1:] for i in range(k) for j in range(i + 1, k)]
+    if not (c['log'] and c['x_from'] == 'explicit') or c.get('ys_override'):
+        return cands[0]
+    ws = lag_weights(c['xs'])
+    for p in cands:
+        worst = Fraction(0)
+        for cs in c['coefs'] + (c.get('coefs2') or []):
+            e = Fraction(0)
+            for i in range(k):
+                x = Fraction(c['xs'][p[i]]); v = Fraction(0)
+                for cc in reversed(cs):
+                    v = v * x + Fraction(cc)
+                e += ws[i] * v
+            worst = max(worst, abs(e))
+        if worst <= 30:
+            return p
+    return None
+
+def attach_calls(rng, c, n, nexp):
+    k = c['k']; A = list(c['pts']); xs = list(c['xs'])
+    explicit = c['x_from'] == 'explicit'
+    if explicit:
+        c['xl_kind'] = XL_KINDS[nexp % len(XL_KINDS)]
+        if c['xl_kind'] == 'shared' and c.get('ys_override'):
+            c['xl_kind'] = 'list'          # the forced-fallback cases carry one prescribed data set
+        if c['xl_kind'] == 'shared':
+            c2 = []
+            for cs in c['coefs']:
+                d = [cc + lib.dyadic(rng, -1, 1, 4) / (2 if c['log'] else 1) for cc in cs]
+                if d[0] == 0:
+                    d[0] = 0.25
+                c2.append(d)
+            c['coefs2'] = c2
+        # another pts list of the same length: other grid sizes whose spacing the explicit list describes just as well
+        B = [p_ + 1000 for p_ in A]; xB = list(xs)
+    else:
+        # no explicit list: the x values travel with the results, so another pts list means other spacings (and the same limit)
+        m = 7
+        while set(m * p_ + 1 for p_ in A) & set(A):
+            m += 1
+        B = [m * p_ + 1 for p_ in A]
+        xB = [0.41 / (p_ + 1) for p_ in B]
+    c['grid_pts'] = A + B; c['grid_x'] = xs + xB
+    perm = other_order(rng, c)
+    pk = PTS_KINDS[n % 3]
+    first_kind = 'scalar' if (k == 1 and c.get('scalar_pts')) else pk
+    # other arguments scale the model (a wrapper must not remember results by grid list alone).  Every distinct (node list, data) pair
+    # is one exact evaluation of the model in Coq (0.05 s .. 0.3 s: 300-bit weights, 160-bit logarithms), so the scale changes only where
+    # the data set is new anyway: the reordered grid list, another pts list with its own spacings, the second wrapped function.
+    args_perm = ARGS[1]
+    args_B = ARGS[0] if explicit else ARGS[2]
+    args_again = ARGS[0] if perm is not None else ARGS[3]
+    calls = [{'fn': 0, 'passing': 'pos', 'pts': A, 'pts_kind': first_kind, 'args': ARGS[0], 'what': 'positional'},
+             {'fn': 0, 'passing': 'kw', 'pts': A, 'pts_kind': pk, 'args': ARGS[0], 'what': 'keyword'},
+             {'fn': 0, 'passing': 'pos', 'pts': A, 'pts_kind': pk if k > 1 or c.get('scalar_pts') else 'scalar', 'args': ARGS[0], 'what': 'positional again'}]
+    if c.get('pts_passing') == 'kw':       # keep the first call what the single-call generator drew
+        calls[0]['passing'], calls[1]['passing'] = 'kw', 'pos'
+        calls[0]['what'], calls[1]['what'] = 'keyword', 'positional'
+        calls[2]['passing'] = 'kw'; calls[2]['what'] = 'keyword again'
+    if perm is not None:
+        calls.append({'fn': 0, 'passing': rng.choice(['pos', 'kw']), 'pts': [A[i] for i in perm], 'pts_kind': PTS_KINDS[(n + 1) % 3],
+                      'args': args_perm, 'what': 'grid list in another order'})
+    calls.append({'fn': 0, 'passing': rng.choice(['pos', 'kw']), 'pts': B, 'pts_kind': PTS_KINDS[(n + 2) % 3], 'args': args_B,
+                  'what': 'another pts list of the same length'})
+    calls.append({'fn': 0, 'passing': 'kw' if calls[0]['passing'] == 'pos' else 'pos', 'pts': A, 'pts_kind': pk,
+                  'args': args_again,
+                  'what': 'first pts list again' + ('' if perm is not None else ', other arguments')})
+    if c.get('coefs2'):
+        calls.insert(1, {'fn': 1, 'passing': 'kw', 'pts': A, 'pts_kind': pk, 'args': ARGS[4], 'what': 'second wrapped function sharing the x list'})
+        calls.insert(4, {'fn': 1, 'passing': 'pos', 'pts': A if perm is None else [A[i] for i in perm], 'pts_kind': pk, 'args': ARGS[4],
+                         'what': 'second wrapped function, grid list in another order'})
+        calls.append({'fn': 1, 'passing': 'pos', 'pts': A, 'pts_kind': pk, 'args': ARGS[4], 'what': 'second wrapped function again'})
+    calls.append({'fn': 0, 'passing': calls[0]['passing'], 'pts': A, 'pts_kind': pk, 'args': ARGS[0], 'what': 'first call repeated at the end'})
+    c['calls'] = calls
+
+def legacy_calls(c):
+    p = c['pts']
+    return [{'fn': 0, 'passing': c.get('pts_passing', 'pos'), 'pts': p, 'args': [1.5, 2.5], 'what': 'single call',
+             'pts_kind': 'scalar' if (len(p) == 1 and c.get('scalar_pts')) else 'list'}]
+
+def describe(c, j):
+    calls = c.get('calls') or legacy_calls(c)
+    xl = 'extrap_x_l=None (x from the results)' if c['x_from'] == 'attr' else 'extrap_x_l as %s' % c.get('xl_kind', 'list')
+    return 'call %d of %d on one wrapped function (%s; %s; %s; k=%d%s)' % (
+        j + 1, len(calls), ' -> '.join(cl.get('what', '?') for cl in calls[:j + 1]), xl, c['mode'], c['k'], ', log' if c['log'] else '')
+
+def replay_of(c, j, extra):
+    cc = dict(c)
+    cc['calls'] = (c.get('calls') or legacy_calls(c))[:j + 1]       # the failing call with its predecessors
+    d = {'case': cc, 'failing_call': j}
+    d.update(extra)
+    return d
 
 def run(ctx):
     ctx.rule = ('cases = (k, ordering of k distinct grid sizes, polynomial coefficient sets per entry, linear/log mode, '
                 'array/Spectrum/scalar result, explicit or attribute-derived x, positional/keyword pts, fail_mag) drawn from one PRNG; '
-                'plus forced-fallback cases; distinct = distinct (k, ordering, xs, coefs, flags); non-trivial = k >= 2')
+                'plus forced-fallback cases; every case = ONE wrap and a sequence of calls (positional, keyword, positional again, grid list '
+                'in another order, another pts list, other arguments, first call again; extrap_x_l as list/tuple/ndarray/list shared by two '
+                'wrapped functions; pts as list/tuple/ndarray/scalar); distinct = distinct (k, ordering, xs, coefs, flags); non-trivial = k >= 2')
     ctx.assumptions += ['float64 evaluation of the formulas is compared with exact rational evaluation at tolerance 1e-11 x conditioning scale (sum |w_i y_i|)',
                         'Qexp/Qln are rational approximations with relative error < 1e-25 (log mode only)']
     translator_obligations(ctx)
     dispatch_obligation(ctx)
+    c07_frame.frame_obligations(ctx, NUMERICS)
     cases = gen_cases(ctx)
     if ctx.replay:
         rp = json.load(open(ctx.replay))
@@ -198,79 +335,189 @@ def run(ctx):
             cases = [c]
     res = lib.run_impl('c07_impl.py', cases, timeout=900)
     byid = {r['id']: r for r in res}
-    exprs = []
-    meta = {}
+    batches = {}          # (log, fail_mag, node list) -> items (data set, result); the Lagrange weights are computed once per batch in Coq
+    nviol = {}
+    pending = []
+    value_failed = set()      # cases that already have a violation with a failing call: the correspondence adds failed obligations only
+    def violation(kind, what, data, key=None, cap=3):
+        # collected and handed to ctx at the end: wrong values first, then modified arguments, exceptions, aliasing, glue
+        nviol[kind] = nviol.get(kind, 0) + 1
+        if nviol[kind] <= cap:
+            pending.append((kind, what, data, key))
     for c in cases:
         r = byid[c['id']]
+        calls = c.get('calls') or legacy_calls(c)
         ctx.count('k=%d' % c['k']); ctx.count('mode=' + c['mode']); ctx.count('log' if c['log'] else 'linear')
+        ctx.count('extrap_x_l=' + ('None' if c['x_from'] == 'attr' else c.get('xl_kind', 'list')))
         if 'error' in r:
             ctx.count('impl_error')
-            ctx.violation('make_extrap_func raised %s for k=%d grid sizes' % (r['error'], c['k']),
-                          data={'case': c, 'impl': r}, key='extrap-raises-k%d' % c['k'] if 'NameError' in r['error'] else None)
+            violation('raise', 'make_extrap_func raised %s when wrapping (k=%d grid sizes)' % (r['error'], c['k']), {'case': c, 'impl': r})
             continue
-        ys = r['ys']; out = r['res']
-        ctx.case(signature=(c['k'], c['perm'], c['xs'], c['coefs'], c['log'], c['mode'], c['fail_mag'], c.get('special')) if c['k'] >= 2 else None,
-                 sample={'k': c['k'], 'pts': c['pts'], 'xs': c['xs'], 'ys': ys, 'log': c['log'], 'mode': c['mode'], 'impl': out})
-        mask = r.get('mask') or [False] * len(out)
-        # --- glue: labels, type, name
-        if c['mode'] == 'spectrum':
-            if r.get('pop_ids') != c.get('pop_ids') or not r.get('is_spectrum') or r.get('shape') != c['shape']:
-                ctx.violation('Spectrum-valued extrapolation lost labels/type/shape: got %r %r' % (r.get('pop_ids'), r.get('shape')),
-                              data={'case': c, 'impl': r})
         if r.get('name') != 'model':
-            ctx.violation('extrapolated function lost __name__', data={'case': c, 'impl': r})
-        # --- property predicate on the implementation (polynomial cases): result = value at 0
-        if not c.get('ys_override'):
-            for e, cs in enumerate(c['coefs']):
+            violation('glue', 'extrapolated function lost __name__', {'case': c, 'impl': r})
+        gx = dict(zip(c.get('grid_pts') or c['pts'], c.get('grid_x') or c['xs']))
+        seen = {}             # (fn, pts, kind-independent, args) -> (call index, ys, res, mask)
+        bad_case = False
+        frozen_seen = False
+        for j, (cl, o) in enumerate(zip(calls, r['calls'])):
+            ctx.count('calls'); ctx.count('call: ' + cl.get('what', '?').split(',')[0]); ctx.count('pts as ' + cl.get('pts_kind', 'list'))
+            where = describe(c, j)
+            # --- argument-freezing predicate (evaluated after every call, also one that raised)
+            if not o.get('xl_frozen', True):
+                if not frozen_seen:
+                    violation('frozen', 'the caller\'s extrap_x_l was modified by %s: %r' % (where, o.get('xl_now')), replay_of(c, j, {'impl': o}))
+                frozen_seen = True        # reported once; the following calls show what it does to the values
+            if not o.get('pts_frozen', True):
+                if not frozen_seen:
+                    violation('frozen', 'a pts list of the caller was modified by %s: %r' % (where, o.get('pts_changed')), replay_of(c, j, {'impl': o}))
+                frozen_seen = True
+            if 'error' in o:
+                ctx.count('impl_error')
+                violation('raise', 'wrapped function raised %s in %s' % (o['error'], where), replay_of(c, j, {'impl': o}),
+                          key='extrap-raises-k%d' % c['k'] if 'NameError' in o['error'] else None)
+                bad_case = True
+                break
+            ys = o['ys']; out = o['res']
+            factor = (cl['args'][0] + cl['args'][1]) / 4.0
+            x_true = [gx[p_] for p_ in cl['pts']]
+            x_used = list(c['xs']) if c['x_from'] == 'explicit' else x_true
+            coefs = c['coefs2'] if cl.get('fn', 0) == 1 else c['coefs']
+            if j == 0:
+                ctx.case(signature=(c['k'], c.get('perm'), c['xs'], c['coefs'], c['log'], c['mode'], c['fail_mag'], c.get('special')) if c['k'] >= 2 else None,
+                         sample={'k': c['k'], 'pts': c['pts'], 'xs': c['xs'], 'ys': ys, 'log': c['log'], 'mode': c['mode'], 'impl': out, 'calls': len(calls)})
+            mask = o.get('mask') or [False] * len(out)
+            # --- the model is evaluated once per grid size of the list, in list order
+            if o.get('evaluated') != [int(p_) for p_ in cl['pts']]:
+                violation('glue', 'the model was evaluated at %r for pts=%r in %s (result %r)' % (o.get('evaluated'), cl['pts'], where, out),
+                          replay_of(c, j, {'impl': o}))
+                bad_case = True
+                if ys is None:
+                    value_failed.add(c['id'])
+                    break
+            # --- glue: labels, type
+            if c['mode'] == 'spectrum':
+                if o.get('pop_ids') != c.get('pop_ids') or not o.get('is_spectrum') or o.get('shape') != c['shape']:
+                    violation('glue', 'Spectrum-valued extrapolation lost labels/type/shape: got %r %r in %s' % (o.get('pop_ids'), o.get('shape'), where),
+                              replay_of(c, j, {'impl': o}))
+                    bad_case = True
+            # --- results own their memory.  One grid size is the documented identity: in linear mode the model's own object comes back; in
+            #     log mode it is numpy.exp(numpy.log(r)), and numpy.ma (2.x) hands an all-False mask through its unary ufuncs unshared
+            #     (data is fresh).  Nothing is shared for 2..6 grid sizes.
+            alias = [a for a in o.get('alias', []) if not (c['k'] == 1 and 'of this call' in a and (not c['log'] or a.startswith('result.mask ')))]
+            if alias:
+                violation('alias', 'result of %s: %s' % (where, '; '.join(alias[:3])), replay_of(c, j, {'impl': o}))
+                bad_case = True
+            # --- property predicate on the implementation (polynomial data paired with its own spacings): result = value at 0
+            if not c.get('ys_override') and x_used == x_true:
+                for e, cs in enumerate(coefs):
+                    if mask[e]:
+                        continue
+                    want = (math.exp(cs[0]) if c['log'] else cs[0]) * factor
+                    ws = lag_weights(x_used)
+                    sc = Fraction(0)
+                    for i in range(c['k']):
+                        yy = Fraction(ys[e][i]) if not c['log'] else Fraction(math.log(ys[e][i]))
+                        sc += abs(ws[i] * yy)
+                    scale = float(sc) + abs(want)
+                    if c['log']:
+                        scale = (1 + float(sc)) * abs(want)
+                    # skip entries where the fallback legitimately applies
+                    best = ys[e][min(range(c['k']), key=lambda i: x_used[i])]
+                    fb = False
+                    if c['k'] > 1 and want != 0 and best != 0 and want / best > 0:
+                        fb = abs(math.log10(want / best)) > c['fail_mag'] * (1 - 1e-6)
+                    if fb:
+                        ctx.count('fallback_applies'); continue
+                    ctx.count('predicate evaluations')
+                    if not abs(out[e] - want) <= 1e-9 * scale:
+                        violation('exact', 'extrapolation of a degree<k polynomial is not the value at zero spacing: got %r want %r in %s' % (out[e], want, where),
+                                  replay_of(c, j, {'entry': e, 'impl': out[e], 'want': want}))
+                        bad_case = True
+                        break
+            if o.get('model_arrays_changed'):
+                violation('alias', 'an array returned by the model was modified in place by %s: pts=%r returned %r, now %r'
+                          % ((where,) + tuple(o['model_arrays_changed'][0])), replay_of(c, j, {'impl': o}))
+                bad_case = True
+            # --- identical calls give bit-identical results
+            skey = (cl.get('fn', 0), tuple(cl['pts']), tuple(cl['args']))
+            if skey in seen and not bad_case:
+                j0, ys0, out0, mask0 = seen[skey]
+                if ys0 == ys and (mask0 != mask or any(a != b_ and not (a != a and b_ != b_) for a, b_, m in zip(out0, out, mask) if not m)):
+                    violation('repeat', 'the same wrapped function returned different values for the same arguments: %s gives %r, call %d gave %r'
+                              % (where, out, j0 + 1, out0), replay_of(c, j, {'impl': o, 'earlier': out0}))
+                    bad_case = True
+            else:
+                seen[skey] = (j, ys, out, mask)
+            # --- correspondence items (per unmasked entry), batched by node list; the boundary of the fallback decision is decided by
+            #     the model (Qln exact to 1e-25)
+            fm = q(Fraction(repr(c['fail_mag'])) if isinstance(c['fail_mag'], float) else c['fail_mag'])
+            bkey = (c['log'], fm, tuple(x_used))
+            bt = batches.setdefault(bkey, {'items': [], 'index': {}, 'meta': []})
+            for e in range(len(out)):
                 if mask[e]:
                     continue
-                want = math.exp(cs[0]) if c['log'] else cs[0]
-                # conditioning: sum |w_i y_i|
-                fx = [Fraction(x) for x in c['xs']]
-                sc = Fraction(0)
-                for i in range(c['k']):
-                    w = Fraction(1)
-                    for j in range(c['k']):
-                        if j != i:
-                            w *= fx[j] / (fx[j] - fx[i])
-                    yy = Fraction(ys[e][i]) if not c['log'] else Fraction(math.log(ys[e][i]))
-                    sc += abs(w * yy)
-                scale = float(sc) + abs(want)
-                if c['log']:
-                    scale = (1 + float(sc)) * abs(want)
-                # skip entries where the fallback legitimately applies
-                best = ys[e][min(range(c['k']), key=lambda i: c['xs'][i])]
-                fb = False
-                if c['k'] > 1 and want != 0 and best != 0 and want / best > 0:
-                    fb = abs(math.log10(want / best)) > c['fail_mag'] * (1 - 1e-6)
-                if fb:
-                    ctx.count('fallback_applies'); continue
-                if abs(out[e] - want) > 1e-9 * scale:
-                    ctx.violation('extrapolation of a degree<k polynomial is not the value at zero spacing: k=%d got %r want %r' % (c['k'], out[e], want),
-                                  data={'case': c, 'entry': e, 'impl': out[e], 'want': want})
-        # --- correspondence cases (per unmasked entry)
-        for e in range(len(out)):
-            if mask[e]:
-                continue
-            # avoid boundary of the fallback decision (approximate logs on the Q side)
-            ex_e = out[e]
-            skip = False
-            if c['k'] > 1:
-                best = ys[e][min(range(c['k']), key=lambda i: (c['xs'][i], i))]
-                # we cannot know ex before fallback; the model decides. Boundary guard done on model side by exactness of Qln (1e-25).
-            n = len(exprs)
-            exprs.append((n, '{| xc_log := %s; xc_fm := %s; xc_xs := %s; xc_ys := %s; xc_impl := %s |}' % (
-                b(c['log']), q(Fraction(repr(c['fail_mag'])) if isinstance(c['fail_mag'], float) else c['fail_mag']), ql(c['xs']), ql(ys[e]), q(out[e]))))
-            meta[n] = (c, e)
+                ikey = (tuple(ys[e]), out[e])          # identical (data, result) pairs are evaluated once
+                n = bt['index'].get(ikey)
+                if n is None:
+                    n = len(bt['items'])
+                    bt['index'][ikey] = n
+                    bt['items'].append('(%s, %s)' % (ql(ys[e]), q(out[e])))
+                    bt['meta'].append([])
+                bt['meta'][n].append((c, j, e))
+            if bad_case:
+                value_failed.add(c['id'])
+                break             # later calls of a broken wrapped function add nothing to the replay
     header = 'From Coq Require Import ZArith QArith List.\nFrom Dadi Require Import Base.Num Base.NumQ Model.Extrap Model.ExtrapCheck.\nImport ListNotations.\nOpen Scope Q_scope.'
-    results = ctx.coq_cases('corr', header, exprs, '(xcheck %s)' % q(TOL), 'tol 1e-11 x conditioning scale', shard=ctx.pick(60, 150))
-    nbad = 0
-    for n, (c, e) in meta.items():
+    exprs = []
+    blist = list(batches.items())
+    for n, ((logm, fm, xs), bt) in enumerate(blist):
+        exprs.append((n, '{| xb_log := %s; xb_fm := %s; xb_xs := %s; xb_items := [%s] |}' % (b(logm), fm, ql(list(xs)), '; '.join(bt['items']))))
+    nitems = sum(len(bt['items']) for _, bt in blist)
+    ctx.count('correspondence batches (one node list each)', len(exprs)); ctx.count('distinct correspondence evaluations', nitems)
+    # a few balanced shards (the expensive batches - log mode, many grid sizes - come last in generation order)
+    # exact rational arithmetic on 160-bit logarithms and 300-bit weights costs ~0.05 s (linear) .. 0.3 s (log, 6 grid sizes) per item
+    nsh = max(1, min(6, -(-nitems // ctx.pick(60, 150))))
+    cost = {n: len(bt['items']) * (len(bk[2]) + 1) ** 2 * (3 if bk[0] else 1) for n, (bk, bt) in enumerate(blist)}
+    bins = [[0, []] for _ in range(nsh)]
+    for x in sorted(exprs, key=lambda x: -cost[x[0]]):
+        bn = min(bins, key=lambda t: t[0])
+        bn[0] += cost[x[0]]; bn[1].append(x)
+    size = max(1, max(len(bn[1]) for bn in bins))
+    results = {}
+    # coq_cases cuts its list into consecutive chunks of one size: hand it the balanced bins one by one (they run concurrently below)
+    from concurrent.futures import ThreadPoolExecutor
+    with ThreadPoolExecutor(max_workers=nsh) as ex:
+        futs = [ex.submit(ctx.coq_cases, 'corr%d' % i, header, bn[1], '(xcheck_batch %s)' % q(TOL), 'tol 1e-11 x conditioning scale',
+                          shard=size, record_err=False) for i, bn in enumerate(bins) if bn[1]]
+        for f in futs:
+            results.update(f.result())
+    reported = set()
+    for n, (bkey, bt) in enumerate(blist):
         rr = results.get(n)
-        ok = rr is not None and rr[0]
-        ctx.obligation('corr case %d entry %d' % (c['id'], e), ok, 'correspondence', '' if ok else 'model != impl (log2 rel err %r)' % (rr,))
-        if not ok:
-            nbad += 1
-            if nbad <= 3:
-                ctx.violation('make_extrap_func disagrees with the Lagrange model (k=%d, log=%s, fail_mag=%s)' % (c['k'], c['log'], c['fail_mag']),
-                              data={'case': c, 'entry': e, 'impl': byid[c['id']], 'coq': rr}, no_input=bool(c.get('ys_override')) is None)
+        # (true, worst log2 relative error)  |  (false, index of the first item that disagrees)  |  None: evaluation failed
+        if rr is not None and rr[0]:
+            ctx.err('corr', rr[1], 'tol 1e-11 x conditioning scale')
+        for i, metas in enumerate(bt['meta']):
+            if rr is None:
+                ok, detail = False, 'batch was not evaluated'
+            elif rr[0] or i < rr[1]:
+                ok, detail = True, ''
+            elif i == rr[1]:
+                ok, detail = False, 'model != impl'
+            else:
+                ok, detail = False, 'not evaluated: an earlier item of the same batch (same node list) disagrees'
+            for (c, j, e) in metas:
+                ctx.obligation('corr case %d call %d entry %d' % (c['id'], j, e), ok, 'correspondence', detail)
+            if rr is not None and not rr[0] and i == rr[1]:
+                c, j, e = min(metas, key=lambda m: (m[0]['id'], m[1], m[2]))
+                if c['id'] not in reported and c['id'] not in value_failed:
+                    reported.add(c['id'])
+                    o = byid[c['id']]['calls'][j]
+                    violation('corr', 'make_extrap_func disagrees with the Lagrange model (log=%s, fail_mag=%s, entry %d: got %r) in %s'
+                              % (c['log'], c['fail_mag'], e, o['res'][e], describe(c, j)),
+                              replay_of(c, j, {'entry': e, 'impl': o, 'xs_of_the_model': list(bkey[2])}), cap=3)
+    order = ['exact', 'corr', 'repeat', 'frozen', 'raise', 'alias', 'glue']
+    for kind, what, data, key in sorted(pending, key=lambda t: order.index(t[0])):
+        ctx.violation(what, data=data, key=key)
+    for kind, nn in nviol.items():
+        ctx.count('violations: ' + kind, nn)
